@@ -19,7 +19,10 @@ RULE = ("Hypothesis-generated well-typed expression trees (tagged identifiers, a
         "powers, quotients, comparisons, and/or/not, calls with keyword arguments, subscripts, conditional "
         "expressions; depth <= 6, int and float constants) printed with str() and re-parsed; plus backtick names "
         "over [<>:a-zA-Z0-9_]+ alone and embedded. Non-trivial = depth >= 3 and >= 2 distinct operator classes "
-        "(for the backtick clause: name contains a character outside [a-zA-Z0-9_]); distinct by canonical JSON.")
+        "(for the backtick clause: name contains a character outside [a-zA-Z0-9_]); distinct by canonical JSON. String level: "
+        "token soups and templated strings; whatever parse() accepts and maps onto the listed constructs (well-typed) must "
+        "round-trip from its own printed form (reaches shapes only the parser produces: unary minus, subtraction, lookups, "
+        "redundant parentheses).")
 ASSUMPTIONS = ["expressions are well-typed (logical operators over comparisons, arithmetic over numbers)",
                "no complex constants and no min/max nodes (the parser has no such construct)",
                "structural equality is not required (keyword dicts, 1-tuples, sum nesting differ benignly)"]
@@ -67,7 +70,16 @@ def has_if_in_call_arg(t):
     return any(has_if_in_call_arg(c) for c in T.children(t))
 
 
-FEATURES = {"pow_base_pow": has_pow_base_pow, "if_in_call_arg": has_if_in_call_arg}
+def has_unprintable_name(t):
+    """A variable whose name is not of the shape [<tag>]identifier: only backticks can express it,
+    and str() does not put them back."""
+    import re
+    return any(re.fullmatch(r"(<[A-Za-z_][A-Za-z0-9_]*>)?[A-Za-z_][A-Za-z0-9_]*|<[A-Za-z_][A-Za-z0-9_]*>", v) is None
+               for v in T.variables(t, include_functions=True))
+
+
+FEATURES = {"pow_base_pow": has_pow_base_pow, "if_in_call_arg": has_if_in_call_arg,
+            "unprintable_name": has_unprintable_name}
 
 
 # ---------------------------------------------------------------- oracle
@@ -144,11 +156,13 @@ def sig_of(msg):
 def replay(sub, case):
     if sub == "backtick":
         return check_backtick(case)
+    if sub == "string":
+        return check_string(case["text"])[0]
     return check_expr(case)
 
 
 def shrink(sub, case):
-    if sub == "backtick":
+    if sub in ("backtick", "string"):
         return case
     from vlib.shrink import shrink_tree
     sig = sig_of(check_expr(case) or "")
@@ -192,6 +206,124 @@ def expr_shard(ctx, n):
     hyp_explore(ctx, strat, body, n, "expr")
 
 
+# ---------------------------------------------------------------- string level: whatever the parser accepts
+
+TOKENS = ["x", "y", "<state>y", "<p>k", "<t>", "<dt>", "f", "<func>f", "`<p>a b`"[:6] + "`", "`a:b`", "arr", "1", "2", "0.5", "3",
+          "+", "-", "*", "/", "**", "(", ")", "[", "]", ",", "<", "<=", "==", "!=", ">", "and", "or", "not", "if", "else",
+          "k=", "True", "False", ".real", " "]
+
+
+def string_cases():
+    # token soup biased towards well-formed shapes by a few templates
+    tok = st.sampled_from(TOKENS)
+    soup = st.lists(tok, min_size=1, max_size=14).map(" ".join)
+    atom = st.sampled_from(["x", "y", "<state>y", "<p>k", "<t>", "1", "2", "0.5", "-1", "- x", "`<p>k`", "arr[1]", "f(x)",
+                            "f(x, k=2)", "<func>f(<t>, y=x)", "(x + 1)", "x.real", "True", "not x < y", "arr[x + 1]"])
+    binop = st.sampled_from([" + ", " - ", " * ", " / ", " ** ", " < ", " and ", " or ", " == "])
+
+    @st.composite
+    def templ(draw):
+        n = draw(st.integers(1, 5))
+        s_ = draw(atom)
+        for _ in range(n):
+            k = draw(st.integers(0, 5))
+            if k == 0:
+                s_ = "(%s)" % s_
+            elif k == 1:
+                s_ = "- %s" % s_
+            elif k == 2:
+                s_ = "%s if %s else %s" % (s_, draw(atom), draw(atom))
+            else:
+                s_ = s_ + draw(binop) + draw(atom)
+        return s_
+    return st.one_of(soup, templ(), templ(), templ())
+
+
+def check_string(text, exclude=()):
+    """None, or message; 'skip' results are reported through the info dict."""
+    from dagrt.expression import parse
+    from dagrt.utils import get_variables
+    info = {}
+    try:
+        r = parse(text)
+    except Exception:
+        info["rejected"] = True          # not an expression of the language
+        return None, info
+    try:
+        t = T.from_pymbolic(r)
+    except ValueError:
+        info["foreign"] = True           # tuples, slices, ... : outside the listed constructs
+        return None, info
+    if "tuple" in T.kinds(t) or any(isinstance(x, list) for x in _consts(t)):
+        info["foreign"] = True
+        return None, info
+    info["tree"] = t
+    for f, pred in FEATURES.items():
+        if f in exclude and pred(t):
+            info["known_shape"] = f
+            return None, info
+    if nested_comparison(t) or not well_typed(t):
+        info["ill_typed"] = True
+        return None, info
+    return check_expr(t), info
+
+
+def _consts(t):
+    if t[0] == "const":
+        yield t[1]
+    for c in T.children(t):
+        yield from _consts(c)
+
+
+def nested_comparison(t):
+    if t[0] == "cmp" and (t[1][0] == "cmp" or t[3][0] == "cmp"):
+        return True
+    return any(nested_comparison(c) for c in T.children(t))
+
+
+def well_typed(t, want=None):
+    """Arithmetic over numbers, logic over comparisons/booleans (what the property's evaluation clause needs)."""
+    k = t[0]
+    boolish = k in ("cmp", "and", "or", "not") or (k == "const" and isinstance(t[1], bool))
+    if want == "num" and boolish:
+        return False
+    if want == "bool" and not (boolish or k == "if"):
+        return False
+    if k in ("sum", "prod", "quot", "pow", "min", "max"):
+        return all(well_typed(c, "num") for c in T.children(t))
+    if k == "cmp":
+        return well_typed(t[1], "num") and well_typed(t[3], "num")
+    if k in ("and", "or", "not"):
+        return all(well_typed(c, "bool") for c in T.children(t))
+    if k == "if":
+        return well_typed(t[1], "bool") and well_typed(t[2], want) and well_typed(t[3], want)
+    if k in ("call", "sub", "lookup"):
+        return all(well_typed(c, "num") for c in T.children(t))
+    return True
+
+
+def string_shard(ctx, n):
+    excluded = [f for f in FEATURES if ctx.is_excluded(f)]
+
+    def body(text):
+        msg, info = check_string(text, excluded)
+        if info.get("rejected"):
+            ctx.note({"text": text}, False, ["string_rejected"])
+            return
+        cls = "string_parsed"
+        for k in ("foreign", "known_shape", "ill_typed"):
+            if k in info:
+                cls = "string_" + k
+                if k == "known_shape":
+                    ctx.count("excluded_by_known_finding")
+        t = info.get("tree")
+        ctx.note({"text": text}, cls == "string_parsed" and t is not None and T.depth(t) >= 3, [cls])
+        if msg is not None:
+            ctx.fail("string", {"text": text}, msg, sig="string " + sig_of(msg))
+
+    hyp_explore(ctx, string_cases(), body, n, "string")
+
+
 NAME_ALPHABET = "<>:_abzAZ019"
 
 
@@ -218,6 +350,8 @@ def run(ctx):
     if ctx.quick:
         ctx.parallel(expr_shard, 8, 1000)
         ctx.parallel(backtick_shard, 4, 400)
+        ctx.parallel(string_shard, 8, 500)
     else:
         ctx.parallel(expr_shard, 16, 80000)
         ctx.parallel(backtick_shard, 16, 5000)
+        ctx.parallel(string_shard, 16, 40000)
